@@ -59,7 +59,7 @@ func c04FeatGen(g *hx.Gen) {
 	g.Casef("bedl 3 %s", hx.Hex([]byte("chr1\t1\t10\nchr2\t5\t20\n")))
 	g.Casef("gffl %s", hx.Hex([]byte("##DNA x\n##acgt\n##end-DNA\n")))
 	// physical lines on the boundaries of bufio's buffer (each read in the four layouts)
-	for _, bf := range fioBoundaryFiles(g, g.Scale(2, 8)) {
+	for _, bf := range fioBoundaryFiles(g, g.Scale(1, 8)) {
 		if bf.bed {
 			g.Casef("bedl 4 %s", hx.Hex(bf.data))
 		} else {
